@@ -101,7 +101,7 @@ def run(eng, ctx):
             arg = e.term[3][0] if e.term[3] else kw.get("payload")
             segs = cat.to_cat(arg) if arg is not None else None
             want = [("src", msg, hb, ("neg", cb))]
-            ctx.check(segs == want, "C08.D4", f.qualname, "constructor payload argument", expected=f"{f.params[0]}[{hb}:-{cb}]", found=cat.render(segs) if segs else (show(arg)[:80] if arg else "none"), **eng.loc(f, e.node))
+            ctx.check(segs == want or SH.declared_length_slice(arg, msg, fr["rtcm3"]), "C08.D4", f.qualname, "constructor payload argument", expected=f"{f.params[0]}[{hb}:-{cb}]", found=cat.render(segs) if segs else (show(arg)[:80] if arg else "none"), **eng.loc(f, e.node))
             others = [v for k, v in list(kw.items()) if k != "payload"] + list(e.term[3][1:])
             tainted = [show(v)[:50] for v in others if mentions(v, lambda s: s == msg)]
             ctx.check(not tainted, "C08.D4", f.qualname, "no other constructor argument derives from the message bytes", expected="only the payload slice", found=", ".join(tainted) or "-", **eng.loc(f, e.node))
